@@ -246,6 +246,7 @@ def check_all(funcs):
             abi.append(z3.Extract(3, 0, stkB) == 0)                    # (what every saver establishes: proved below)
         else:
             top, fth, nctx = STARTERS[X]
+            a.regs[top] = a.region("STKTOP")                           # the raw p_stacktop argument (a region base of its own)
             a.constraints.append(z3.Extract(2, 0, a.regs[top]) == 0)   # p_stacktop is 8-byte aligned (documented precondition)
             stacktop0 = a.regs[top]; f_thread0 = a.regs[fth]; newctx0 = a.regs[nctx]
         a.run(funcs[X]); ninstr += a.ninstr
@@ -313,6 +314,7 @@ def check_all(funcs):
         a = Machine("J_" + X)
         entry_state(a, "A", "STK_A"); A0 = dict(a.regs)
         top, fth, nctx = STARTERS[X]
+        a.regs[top] = a.region("STKTOP")
         a.constraints.append(z3.Extract(2, 0, a.regs[top]) == 0)
         stacktop0 = a.regs[top]; f_thread0 = a.regs[fth]; newctx0 = a.regs[nctx]
         a.run(funcs[X]); ninstr += a.ninstr
@@ -321,7 +323,7 @@ def check_all(funcs):
         query("%s: new ULT entered with f_thread(p_new_ctx) on an aligned stack just below p_stacktop" % X, a.constraints + [z3.UGE(stacktop0, 64), z3.ULT(stacktop0, z3.BitVecVal(1 << 63, 64))], g, "as above, for the jump variants")
         for kind2, snap in [e for e in a.events if e[0] == "call"]:
             r, off = a.resolve(snap["rsp"])
-            query("%s: callback on the new stack, aligned, with its arguments" % X, a.constraints, z3.And(z3.BoolVal(r.startswith("NEWSTK")), z3.Extract(3, 0, snap["rsp"]) == 0, snap["rdi"] == A0["rdi"], snap["target"] == A0["rsi"]), "callq in the starting jump variant")
+            query("%s: callback on the new stack, aligned, with its arguments" % X, a.constraints, z3.And(z3.BoolVal(r.startswith("NEWSTK") or r == "STKTOP"), z3.Extract(3, 0, snap["rsp"]) == 0, snap["rdi"] == A0["rdi"], snap["target"] == A0["rsi"]), "callq in the starting jump variant")
     # peek_fcontext: callee-saved r12 and rsp restored
     if "peek_fcontext" in funcs:
         a = Machine("P")
